@@ -5,6 +5,8 @@ props=[json.loads(l) for l in open('/verif/properties.jsonl')]
 ENV="GOFLAGS=-mod=mod GOPROXY=off GOSUMDB=off GOTOOLCHAIN=local"
 SIM="the scripted in-memory connection, reference broker (independent MQTT 3.1.1 codec) and instrumented Persistence of /verif/harness/sim model network, broker and store faithfully; faults are realistic (see DESIGN.md section 3 conventions)"
 checks={
+ "C08":("fault_enumeration","runtime monitoring: per-connection byte log decoded by the independent codec and accounted packet by packet, under scripted write splits (expiry after progress, hard errors) and 1-12 concurrent request goroutines plus the read routine's acknowledgements; race detector on",
+        "Held on the episodes run: every connection's bytes were a concatenation of complete packets, each byte-identical to the reference encoding of an issued request, a stored record or an owed acknowledgement, followed by at most one true prefix ending the log; no request reported success without its complete packet on the wire. Splits are PRNG-placed (0, 1, len-1, random; spanning header/payload), not enumerated exhaustively.","3/C08"),
  "C04":("fault_enumeration","runtime monitoring: reception oracle over step-scripted episodes with the reference broker as QoS 2 sender (retransmissions, identifier reuse), lost acknowledgements, breaks, restarts via AdoptSession, transient store errors",
         "Held on the episodes run: no exactly-once message came out of ReadSlices twice in one process, nor again after a restart once the next invocation had come back (marker durable), every message came out at least once, and at idle the broker's handshake table was empty, i.e. every PUBLISH (duplicate or not) got its PUBREC and every PUBREL its PUBCOMP.","3/C04"),
  "C07":("exploration","runtime monitoring: acknowledgement-timing oracle with a harness-controlled read loop (each ReadSlices invocation granted explicitly), competing outbound requests, failing/lost acknowledgement writes, breaks, restarts; race detector on",
